@@ -210,6 +210,27 @@ theorem composite_sum (n : ℕ) (parts : List (List (Vec ℝ))) (hne : parts ≠
 theorem compositeMat_sum (parts : List (Mat ℝ)) (i j : Fin 3) :
     compositeMat parts i j = (parts.map (fun p => p i j)).sum := compositeMat_apply parts i j
 
+/-- the sum of no parts is the zero displacement (a composite operation of length 0 leaves the atoms where they are) -/
+theorem composite_nil_zero : composite ([] : List (List (Vec ℝ))) = [vzero] := rfl
+
+/-- **move_uses_given_operation**: a move built with an operation uses THAT operation, whatever it is — in particular a
+    composite of no parts is not replaced by the default operation; the default is used exactly when none was given -/
+theorem move_uses_given_operation {β : Type} (g dflt : β) : chosenOp (some g) dflt = g := rfl
+theorem default_operation_only_when_none {β : Type} (dflt : β) : chosenOp (none : Option β) dflt = dflt := rfl
+
+/-- the line before the repair (`operation or self.default_operation`) replaced an empty composite by the default
+    operation: a move that should displace by the sum of no parts displaced by a `Ball(0.1)` draw instead -/
+theorem pinned_replaces_empty_composite {β : Type} (len : β → Option Nat) (g dflt : β) (h : len g = some 0) :
+    chosenOpPinned len (some g) dflt = dflt := by
+  simp [chosenOpPinned, h]
+
+/-- for every operation that is not an empty composite the two lines agree (the repair changes nothing else) -/
+theorem pinned_agrees_elsewhere {β : Type} (len : β → Option Nat) (g : Option β) (dflt : β)
+    (h : ∀ x, g = some x → len x ≠ some 0) : chosenOpPinned len g dflt = chosenOp g dflt := by
+  cases g with
+  | none => rfl
+  | some x => simp [chosenOpPinned, chosenOp, h x rfl]
+
 /-! ## Deformations -/
 
 /-- **iso_scalar_identity**: with the default mask an isotropic deformation is `e^x · 1`, `x = U(-m, m)`, and the
